@@ -326,3 +326,17 @@ CHECKS['C18'].update({
     'technique': "Lean 4 relational (two-run) simulation proof over all strings on a faithful parser model + M-level congruence + generated twin "
                  "equalities; str-vs-bytes API search",
 })
+CHECKS['C08'].update({
+    'text': "Theorems (Lean), on the faithful port of WcParse, for EVERY pattern string and EVERY configuration: translate_twin — the translate-mode "
+            "pass (capturing templates, `(?#)`->`?:` rewrite inside `!(...)` copies, no globstar capture) and the compile-mode pass succeed or fail "
+            "alike and their regexes have equal Re.strip, hence (capture_invisible / strip_certificate) the same FullMatch on every name "
+            "(translate_twin_fullMatch; translate_twin_flags for flag words with the real drive scanner); translate_capture_exact — the translate "
+            "regex has exactly one capturing group per successfully parsed extended group (copies inside `!(...)` look-aheads are erased, counted "
+            "once) and the compile regex none. Tie: K1 in translate mode, the per-pattern strip certificate (now redundant but kept as a run-time "
+            "check of the theorem's instance). Search: translate() regexes all compile and reproduce compile().match on every name for pattern "
+            "lists with exclude=/NEGATE/NEGATEALL/NODIR grids; capture counts in the inclusion and the three exclusion roles; capture texts.",
+    'note': TB + "the list layer (translate() vs compile_pattern() loops: routing, NODIR, NEGATEALL default) is proved in C07's model and searched here; "
+            "'in order of opening' is a property of Item.listToRe's left-to-right composition, stated in a docstring, not a theorem.",
+    'technique': "Lean 4 relational (two-run) simulation proof over all strings on a faithful parser model + capture-invisibility of the regex "
+                 "semantics + capture counting; translate-vs-match API search",
+})
